@@ -507,6 +507,7 @@ def gen_config(rng, kind, tier, extra_ops=(), extra_weight=1.0):
         "extra_ops": list(extra_ops),
         "big_times": rng.random() < 0.2,  # temporal worlds: times far beyond the 0..6 range (two-digit, 2**31, 10**12)
         "large": large,
+        "sparse_obs": rng.random() < 0.3,
     }
     w = {}
     for name in OPS[kind] + list(extra_ops):
@@ -555,6 +556,8 @@ def generate_history(rng, cfg, extra_propose=None, max_actors=4):
             if op is None:
                 continue
             op["a"] = a
+            if op["op"] in ("add_nodes", "remove_nodes", "remove_edges") and rng.random() < 0.25:
+                op["seq"] = rng.choice(["iter", "iter", "tuple"])  # any iterable will do for these batches
             try:
                 if op["op"] == "copy":
                     models.append(m.fork())
@@ -567,6 +570,14 @@ def generate_history(rng, cfg, extra_propose=None, max_actors=4):
                 continue
             ops.append(op)
             break
+    if cfg.get("sparse_obs"):
+        # sparse observation: after most steps only a random part of the queries is made, so a value the library
+        # remembered from an earlier query (and did not refresh) is still there when the query finally comes
+        mr = random.Random(rng.getrandbits(48))
+        rate = mr.choice([0.3, 0.7, 0.9])
+        for op in ops:
+            if mr.random() < 0.8:
+                op["_mute"] = [n for n in O.MUTABLE if mr.random() < rate]
     return ops, stats
 
 
@@ -617,8 +628,19 @@ class World:
 
     def compare_all(self, pid, op, outcome, exc, a):
         for j, (obj, model) in enumerate(self.actors):
-            obs = O.observe(self.kind, obj, self.U, self.probe_keys, flip=(len(self.log) + j) % 2, sizes=self.sizes)
+            O.MUTED = set(op.get("_mute") or ())
+            try:
+                obs = O.observe(self.kind, obj, self.U, self.probe_keys, flip=(len(self.log) + j) % 2, sizes=self.sizes)
+            finally:
+                O.MUTED = set()
             mobs = model.observe(self.U, self.probe_keys, sizes=self.sizes)
+            if op.get("_mute"):
+                # sparse observation: whatever a query that was not made would have contributed is left out on both sides
+                gone = [k for k, v in obs.items() if O.MUTED_TEXT in json.dumps(v, default=str)]
+                for k in gone:
+                    obs.pop(k)
+                    mobs.pop(k, None)
+                self.stats["probes"]["observables_not_queried"] = self.stats["probes"].get("observables_not_queried", 0) + len(gone)
             if model.hmeta_unknown:  # after clear(): adopt what is observed (DESIGN 4.5)
                 try:
                     hm = obj.get_hypergraph_metadata()
@@ -757,6 +779,10 @@ def simplify_ops(case):
     """Per-operation simplifications tried after ddmin (DESIGN 3.3 step 2)."""
     ops = case["ops"]
     for i, op in enumerate(ops):
+        if op.get("_mute"):
+            c = json.loads(json.dumps(case))
+            del c["ops"][i]["_mute"]  # observe everything at this step
+            yield c
         for fld in ("md", "form", "pos"):
             if fld == "md" and op["op"] not in ("add_node", "add_edge"):
                 continue
